@@ -82,7 +82,11 @@ func (s *segment) Index(idx *index) error {
 		err = s.index(idx, e.value)
 		return err == nil
 	})
-	return nil
+	if err != nil {
+		s.indexes = s.indexes[:len(s.indexes)-1]
+		idx.nodes = nil
+	}
+	return err
 }
 
 func (s *segment) Unindex(idx *index) error {
